@@ -396,7 +396,9 @@ func cleanupNewRing(newRing [][2]float64, isOuter bool, hitMultiple map[intgeom.
 		return nil, nil, [][][2]float64{newRing}
 	}
 	// deduplicate points in the ring
-	newRing = kmpDeduplicate(newRing)
+	deduplicated := kmpDeduplicate(newRing)
+	verifhook.Observe("kmpDeduplicate", newRing, deduplicated)
+	newRing = deduplicated
 	newRingLen = len(newRing)
 	// again filter out too small rings, after deduping
 	if newRingLen < 3 {
